@@ -97,6 +97,22 @@ def flatten(asl, notes=None):
         out[name] = r
     for n, s in asl["States"].items():
         one(n, s)
+    # a machine that can loop has no finite model here (the history counter grows for ever)
+    nxt = {n: [x for x in (r["next"], r["catchnext"]) if x] for n, r in out.items()}
+    seen, stack = set(), set()
+
+    def cyc(n):
+        if n in stack:
+            return True
+        if n in seen or n not in nxt:
+            return False
+        seen.add(n)
+        stack.add(n)
+        r = any(cyc(m) for m in nxt[n])
+        stack.discard(n)
+        return r
+    if any(cyc(n) for n in list(nxt)):
+        raise Unsupported("a loop of Next transitions")
     return out
 
 
